@@ -79,7 +79,7 @@ pub fn check_accepted(v: &Visit) -> CaseResult {
 
 pub fn run(ctx: &Ctx) -> Report {
     let mut rep = Report::new(ctx);
-    rep.rule = "Soundness: (a) builder states = constructed valid-looking states with 0..3 edits (overwrite a square with any piece incl. kings and back-rank pawns, remove a piece, kings adjacent, set/clear a right on any file, any EP square, any clocks, flip the turn, ninth pawn, seventeenth man, check against the side not to move, extra checkers, relocated king); (b) FEN strings = canonical records of such states / seed FENs / repo invalid.sfens lines with 0..3 text mutations, through from_fen(false), from_fen(true) and FromStr; (c) start constructors and every board produced by play/null_move along histories; (d) the clock setters with every u8 / boundary u16 argument under catch_unwind, in the checked and the unchecked build (out-of-range arguments must be refused, so no board with a clock out of range can be handed out). Every board handed out must pass the reference structural check (one king each, kings not adjacent, <=16 men, <=8 pawns, no pawn on rank 1/8, side not to move not attacked, rights backed by king on back rank + own rook on the named file on the correct side, EP backed by a just-double-pushed enemy pawn, clocks in range) and, for the builder, show exactly the state put in. Acceptance: every position along move-only histories from DFRC starts re-enters via from_fen(true), FromStr and the builder, giving an equal board. Non-trivial = an ACCEPTED board that came from an edited state or mutated string, or a reached position with EP set / in check / after castling; distinct by hash.".into();
+    rep.rule = "Soundness: (a) builder states = constructed valid-looking states with 0..3 edits (overwrite a square with any piece incl. kings and back-rank pawns, remove a piece, kings adjacent, set/clear a right on any file, any EP square, any clocks, flip the turn, ninth pawn, seventeenth man, check against the side not to move, extra checkers, relocated king); (b) FEN strings = canonical records of such states / seed FENs / repo invalid.sfens lines with 0..3 text mutations, through from_fen(false), from_fen(true) and FromStr; (c) start constructors and every board produced by play/null_move along histories, plus the successor of EVERY move the library's own generator offers at each visited board; (d) the clock setters with every u8 / boundary u16 argument under catch_unwind, in the checked and the unchecked build (out-of-range arguments must be refused, so no board with a clock out of range can be handed out). Every board handed out must pass the reference structural check (one king each, kings not adjacent, <=16 men, <=8 pawns, no pawn on rank 1/8, side not to move not attacked, rights backed by king on back rank + own rook on the named file on the correct side, EP backed by a just-double-pushed enemy pawn, clocks in range) and, for the builder, show exactly the state put in. Acceptance: every position along move-only histories from DFRC starts re-enters via from_fen(true), FromStr and the builder, giving an equal board. Non-trivial = an ACCEPTED board that came from an edited state or mutated string, or a reached position with EP set / in check / after castling; distinct by hash.".into();
     rep.assumptions = vec!["reference structural_defect() is the wording of C06".into()];
     rep.required_classes = vec![
         "state:king-count", "state:kings-adjacent", "state:more-than-16-men", "state:more-than-8-pawns", "state:pawn-on-back-rank", "state:side-not-to-move-in-check",
@@ -124,6 +124,16 @@ pub fn run(ctx: &Ctx) -> Report {
     rep.add(positions(ctx, "reached", ctx.tier.scale(60_000, 25), (6, 2, 2), 80, |v, st| {
         st.eval(1);
         check_sound(v.board, &format!("board reached at {}", v.describe()), &[("start", v.origin.to_string()), ("ops", v.hist.join(","))])?;
+        // Every board play() hands out for a move the LIBRARY itself offers must be sound too
+        // (the walk only plays reference-legal moves; a generator that offers an illegal move
+        // would otherwise never get it played here).
+        for m in lib_moves(v.board) {
+            let mut nb = v.board.clone();
+            if catch_unwind(AssertUnwindSafe(|| nb.play_unchecked(lmove(m)))).is_ok() {
+                st.count("successors-of-library-moves", 1);
+                check_sound(&nb, &format!("board after the library's own move {} at {}", m.text(), v.describe()), &[("start", v.origin.to_string()), ("ops", v.hist.join(",")), ("libmove", m.text())])?;
+            }
+        }
         // Every board reached from an accepted board must itself be re-enterable (C03/C07 state
         // this for all accepted boards; here it is also the acceptance half for start positions).
         if !v.hist.is_empty() && *v.step != Step::Clock {
@@ -237,8 +247,17 @@ pub fn replay(m: &ReplayMap) -> CaseResult {
         let s = String::from_utf8(hex_decode(h).unwrap_or_default()).unwrap_or_default();
         return check_text(&s);
     }
+    let libmove = m.get("libmove").and_then(|t| RMove::parse(t));
     replay_positions(m, |v| {
         check_sound(v.board, "replayed board", &[])?;
+        if libmove.is_some() {
+            for mv in lib_moves(v.board) {
+                let mut nb = v.board.clone();
+                if catch_unwind(AssertUnwindSafe(|| nb.play_unchecked(lmove(mv)))).is_ok() {
+                    check_sound(&nb, "successor of a library move", &[])?;
+                }
+            }
+        }
         let only_moves = v.hist.iter().all(|h| RMove::parse(h).is_some());
         if only_moves {
             check_accepted(v)?;
